@@ -44,32 +44,32 @@ package stree
 //@   ensures  result == (t.size == 0)
 //@
 //@ func (*Tree).Get
-//@   requires [C01] treeInv(t)
-//@   ensures  [C01] found: result.1 == (rank(t.compare, key) in t.elems)
-//@   ensures  [C01] value: result.1 ==> rank(t.compare, result.0) == rank(t.compare, key)
-//@   ensures  [C01] absent: !result.1 ==> result.0 == zero
+//@   requires [C01,C04] treeInv(t)
+//@   ensures  [C01,C04] found: result.1 == (rank(t.compare, key) in t.elems)
+//@   ensures  [C01,C04] value: result.1 ==> rank(t.compare, result.0) == rank(t.compare, key)
+//@   ensures  [C01,C04] absent: !result.1 ==> result.0 == zero
 //@   loop 1: invariant [C01] sub: cur != nil ==> t.root != nil && cur in t.root.desc
 //@   loop 1: invariant [C01] narrowed: (rank(t.compare, key) in t.elems) <==> inK(cur, rank(t.compare, key))
 //@
 //@ func (*Tree).Min
-//@   requires [C01] treeInv(t)
-//@   ensures  [C01] empty: t.root == nil ==> result == zero
-//@   ensures  [C01] member: t.root != nil ==> rank(t.compare, result) in t.elems
-//@   ensures  [C01] least: forall k int :: {k in t.elems} k in t.elems ==> rank(t.compare, result) <= k
+//@   requires [C01,C04] treeInv(t)
+//@   ensures  [C01,C04] empty: t.root == nil ==> result == zero
+//@   ensures  [C01,C04] member: t.root != nil ==> rank(t.compare, result) in t.elems
+//@   ensures  [C01,C04] least: forall k int :: {k in t.elems} k in t.elems ==> rank(t.compare, result) <= k
 //@   loop 1: invariant [C01] sub: cur != nil && t.root != nil && cur in t.root.desc
 //@   loop 1: invariant [C01] bound: forall k int :: {k in t.elems} k in t.elems ==> k in cur.keys || k > rank(t.compare, cur.X)
 //@
 //@ func (*Tree).Max
-//@   requires [C01] treeInv(t)
-//@   ensures  [C01] empty: t.root == nil ==> result == zero
-//@   ensures  [C01] member: t.root != nil ==> rank(t.compare, result) in t.elems
-//@   ensures  [C01] greatest: forall k int :: {k in t.elems} k in t.elems ==> rank(t.compare, result) >= k
+//@   requires [C01,C04] treeInv(t)
+//@   ensures  [C01,C04] empty: t.root == nil ==> result == zero
+//@   ensures  [C01,C04] member: t.root != nil ==> rank(t.compare, result) in t.elems
+//@   ensures  [C01,C04] greatest: forall k int :: {k in t.elems} k in t.elems ==> rank(t.compare, result) >= k
 //@   loop 1: invariant [C01] sub: cur != nil && t.root != nil && cur in t.root.desc
 //@   loop 1: invariant [C01] bound: forall k int :: {k in t.elems} k in t.elems ==> k in cur.keys || k < rank(t.compare, cur.X)
 //@
 //@ func (*Tree).Clear
 //@   requires t != nil
-//@   ensures  [C01] t.root == nil && t.size == 0 && t.max == 0 && treeInv(t) && sizeInv(t) && forall k int :: {k in t.elems} !(k in t.elems)
+//@   ensures  [C01,C04] t.root == nil && t.size == 0 && t.max == 0 && treeInv(t) && sizeInv(t) && forall k int :: {k in t.elems} !(k in t.elems)
 //@   modifies t.size, t.max, t.root, t.elems
 //@   at exit: ghost t.elems = emptyset(t.elems)
 //@
@@ -133,18 +133,18 @@ package stree
 //@   call rewrite#1: cmp = t.compare
 //@
 //@ func (*Tree).Add
-//@   requires [C01] treeInv(t) && sizeInv(t)
-//@   ensures  [C01] inv: treeInv(t) && sizeInv(t)
-//@   ensures  [C01] set: forall k int :: {k in t.elems} k in t.elems <==> (k == rank(t.compare, key) || old(k in t.elems))
-//@   ensures  [C01] result: result == !old(rank(t.compare, key) in t.elems)
+//@   requires [C01,C04] treeInv(t) && sizeInv(t)
+//@   ensures  [C01,C04] inv: treeInv(t) && sizeInv(t)
+//@   ensures  [C01,C04] set: forall k int :: {k in t.elems} k in t.elems <==> (k == rank(t.compare, key) || old(k in t.elems))
+//@   ensures  [C01,C04] result: result == !old(rank(t.compare, key) in t.elems)
 //@   modifies t.root, t.size, t.max, t.elems, every(t.root.left), every(t.root.right), every(t.root.X), every(t.root.keys), every(t.root.desc)
 //@   at exit: ghost t.elems = setadd(t.elems, rank(t.compare, key))
 //@
 //@ func (*Tree).Replace
-//@   requires [C01] treeInv(t) && sizeInv(t)
-//@   ensures  [C01] inv: treeInv(t) && sizeInv(t)
-//@   ensures  [C01] set: forall k int :: {k in t.elems} k in t.elems <==> (k == rank(t.compare, key) || old(k in t.elems))
-//@   ensures  [C01] result: result == !old(rank(t.compare, key) in t.elems)
+//@   requires [C01,C04] treeInv(t) && sizeInv(t)
+//@   ensures  [C01,C04] inv: treeInv(t) && sizeInv(t)
+//@   ensures  [C01,C04] set: forall k int :: {k in t.elems} k in t.elems <==> (k == rank(t.compare, key) || old(k in t.elems))
+//@   ensures  [C01,C04] result: result == !old(rank(t.compare, key) in t.elems)
 //@   modifies t.root, t.size, t.max, t.elems, every(t.root.left), every(t.root.right), every(t.root.X), every(t.root.keys), every(t.root.desc)
 //@   at exit: ghost t.elems = setadd(t.elems, rank(t.compare, key))
 //@
@@ -199,10 +199,10 @@ package stree
 //@   call popMinRight#1: cmp = compare
 //@
 //@ func (*Tree).Remove
-//@   requires [C01] treeInv(t) && sizeInv(t)
-//@   ensures  [C01] inv: treeInv(t) && sizeInv(t)
-//@   ensures  [C01] set: forall k int :: {k in t.elems} k in t.elems <==> old(k in t.elems) && k != rank(t.compare, key)
-//@   ensures  [C01] result: result == old(rank(t.compare, key) in t.elems)
+//@   requires [C01,C04] treeInv(t) && sizeInv(t)
+//@   ensures  [C01,C04] inv: treeInv(t) && sizeInv(t)
+//@   ensures  [C01,C04] set: forall k int :: {k in t.elems} k in t.elems <==> old(k in t.elems) && k != rank(t.compare, key)
+//@   ensures  [C01,C04] result: result == old(rank(t.compare, key) in t.elems)
 //@   modifies t.root, t.size, t.max, t.elems, every(t.root.left), every(t.root.right), every(t.root.X), every(t.root.keys), every(t.root.desc)
 //@   at exit: ghost t.elems = setdel(t.elems, rank(t.compare, key))
 //@   call rewrite#1: cmp = t.compare
